@@ -91,8 +91,12 @@ Definition row_out (c : csv_ctx) (mr : meta_row) : result out_row :=
   do nts <- (if add_vcf_nt && negb (is_some (mr_vcf_nt mr)) && negb (mr_custom mr)
              then do rn <- get_nt (cx_seq c) (mr_ref_pos mr - 1);
                   do an <- get_nt (cx_alt c) (mr_alt_pos mr - 1);
-                  (* sge_ref, ref_ref <- ref_nt ; pam_ref, ref_alt (sic), pam_alt <- alt_nt *)
-                  Ok (Some rn, Some rn, Some an, Some an, Some an)
+                  (* sge_ref, ref_ref, ref_alt <- ref_nt ; pam_ref, pam_alt <- alt_nt *)
+                  Ok (Some rn, Some rn, Some an, Some rn, Some an)
+             else if add_vcf_nt && is_some (mr_vcf_nt mr) && mr_custom mr && (1 <? mr_alt_pos mr)
+             then (* custom indel: the VCF's own anchor for the reference alleles, the protected base for the PAM alleles *)
+                  do an <- get_nt (cx_alt c) (mr_alt_pos mr - 1);
+                  Ok (nt0, nt0, Some an, nt0, Some an)
              else Ok (nt0, nt0, nt0, nt0, nt0));
   let '(sge_nt, ref_ref_nt, pam_ref_nt, ref_alt_nt, pam_alt_nt) := nts in
   let ref_ref_all := mkAl ref_ref ref_ref_nt in
@@ -107,7 +111,7 @@ Definition row_out (c : csv_ctx) (mr : meta_row) : result out_row :=
                  do codon_ref <- psubstr (cx_seq c) (rs pam_range) (re pam_range);
                  do pam_alt <- psubstr (mkPSeq (mkSeq ref_start (mr_oligo mr)) None)
                                        (rs pam_range) (re pam_range + (zlen (mr_alt mr) - zlen (mr_ref mr)));
-                 let drop_nt := rs pam_range <=? mr_alt_pos mr - 1 in
+                 let drop_nt := true in     (* extended alleles are never empty: no anchor nucleotide *)
                  do prs <- match cx_gpo c with
                            | None => Ok (rs pam_range)
                            | Some g => do x <- alt_to_ref_position g (rs pam_range);
